@@ -150,6 +150,8 @@ pub fn framing_label(f: &Framing) -> String {
     }
 }
 
+static FIDELITY: std::sync::atomic::AtomicU64 = std::sync::atomic::AtomicU64::new(0);
+
 pub struct C02;
 
 impl Prop for C02 {
@@ -178,6 +180,11 @@ impl Prop for C02 {
     }
 
     fn random_cases(&self, tier: Tier) -> u64 { tier.pick(40_000, 2_000_000) }
+
+    fn extra_evidence(&self) -> serde_json::Value {
+        serde_json::json!({"traces_validated_against_impl": FIDELITY.load(std::sync::atomic::Ordering::Relaxed),
+                           "traces_validated_note": "cases replayed over real loopback UDP sockets with the same reference server; the result must equal the scripted-transport result"})
+    }
 
     fn strategy(&self, _tier: Tier) -> BoxedStrategy<Case> {
         let n = wrappers().len();
@@ -283,6 +290,23 @@ impl Prop for C02 {
                 let engine = st.engine.engine();
                 let run = run_scripted(Box::new(server), || valve::query(&addr, engine, Some(gather), None));
                 o.failure = expect_equal("C02", "valve::query", &run, &st.expected_response(&gather), &[".rules"]);
+                // transport fidelity: a sample of cases is replayed over real loopback sockets with the same server
+                if o.failure.is_none() && crate::runner::digest(st.info.name.as_bytes()) % 64 == 0 && st.rules.len() < 200 {
+                    let st2 = st.clone();
+                    let lo: IpAddr = std::net::Ipv4Addr::LOCALHOST.into();
+                    if let Some(real) = crate::realnet::RealServer::start(gamedig::verif_hook::Proto::Udp, lo, Box::new(move || Box::new(ValveServer::from_state(&st2).expect("compressor was available")))) {
+                        let raddr = real.addr;
+                        let t = gamedig::protocols::types::TimeoutSettings::new(Some(std::time::Duration::from_secs(3)), Some(std::time::Duration::from_secs(3)), None, 0).ok();
+                        let r2 = crate::wire::run_plain(|| valve::query(&raddr, engine, Some(gather), t));
+                        match (&run.ended, &r2.ended) {
+                            (crate::wire::Ended::Ok(a), crate::wire::Ended::Ok(b)) if a == b => {
+                                FIDELITY.fetch_add(1, std::sync::atomic::Ordering::Relaxed);
+                            }
+                            (_, crate::wire::Ended::Err(gamedig::GDErrorKind::PacketReceive)) => {}
+                            (a, b) => panic!("transport fidelity: scripted wire gives {} but real loopback sockets give {}", a.kind_str(), b.kind_str()),
+                        }
+                    }
+                }
             }
             Some(i) => {
                 let w = &wrappers()[i];
